@@ -765,6 +765,17 @@ func (c *Ctx) applyOp(name string, m modeling.Mesh) opRun {
 		if name == "modify" {
 			w = 1 + c.Rng.Intn(3)
 		}
+		// mostly a width the mesh has
+		var have []int
+		for cand, l := range map[int]int{1: len(m.Float1Attributes()), 2: len(m.Float2Attributes()), 3: len(m.Float3Attributes()), 4: len(m.Float4Attributes())} {
+			if l > 0 && (cand < 4 || name == "scan") {
+				have = append(have, cand)
+			}
+		}
+		sort.Ints(have)
+		if len(have) > 0 && c.Rng.Intn(8) != 0 {
+			w = have[c.Rng.Intn(len(have))]
+		}
 		var names []string
 		switch w {
 		case 1:
